@@ -21,6 +21,7 @@ def run(chk):
     batcher.send_rules(chk, P, "C09")
     batcher.lossless_variants(chk, P, "C09")
     batcher.wait_closures(chk, P, "C09")
+    batcher.send_or_wait_outcomes(chk, P, "C09")
     batcher.who_may(chk, P, "C09")
     batcher.emit_only_enqueues(chk, P, "C09")
     batcher.channel_impls(chk, P, "C09")
